@@ -180,6 +180,12 @@ pub enum TTerm {
     Fold,
     ForEach,
     CollectTrusted,
+    /// `collect_trusted_vec1::<Vec<_>>()` (the generic front end, statically dispatched)
+    FrontEndTrustedVec,
+    /// `collect_trusted_vec1::<VecDeque<_>>()`
+    FrontEndTrustedDeque,
+    /// `collect_vec1::<Vec<_>>()`
+    FrontEndPlainVec,
 }
 
 impl TTerm {
@@ -191,6 +197,9 @@ impl TTerm {
             TTerm::Fold => "fold",
             TTerm::ForEach => "for_each",
             TTerm::CollectTrusted => "collect_trusted_to_vec",
+            TTerm::FrontEndTrustedVec => "collect_trusted_vec1<vec>",
+            TTerm::FrontEndTrustedDeque => "collect_trusted_vec1<deque>",
+            TTerm::FrontEndPlainVec => "collect_vec1<vec>",
         }
     }
     fn parse(s: &str) -> Result<TTerm, String> {
@@ -201,15 +210,33 @@ impl TTerm {
             "fold" => TTerm::Fold,
             "for_each" => TTerm::ForEach,
             "collect_trusted_to_vec" => TTerm::CollectTrusted,
+            "collect_trusted_vec1<vec>" => TTerm::FrontEndTrustedVec,
+            "collect_trusted_vec1<deque>" => TTerm::FrontEndTrustedDeque,
+            "collect_vec1<vec>" => TTerm::FrontEndPlainVec,
             _ => return Err(format!("bad typed terminal {s}")),
         })
     }
-    pub const ALL: [TTerm; 6] =
-        [TTerm::Drain, TTerm::Count, TTerm::Last, TTerm::Fold, TTerm::ForEach, TTerm::CollectTrusted];
+    pub const ALL: [TTerm; 9] = [
+        TTerm::Drain,
+        TTerm::Count,
+        TTerm::Last,
+        TTerm::Fold,
+        TTerm::ForEach,
+        TTerm::CollectTrusted,
+        TTerm::FrontEndTrustedVec,
+        TTerm::FrontEndTrustedDeque,
+        TTerm::FrontEndPlainVec,
+    ];
 }
 
 /// (name, double-ended, cloneable)
-pub const ROOTS: [(&str, bool, bool); 14] = [
+pub const ROOTS: [(&str, bool, bool); 20] = [
+    ("std_range", true, true),
+    ("std_range_inclusive", true, true),
+    ("vec_into_iter", true, true),
+    ("deque_into_iter", true, true),
+    ("unit_items_repeat_n", true, true),
+    ("once_chain_vec", true, false),
     ("cloned_iter_to_trust", true, true),
     ("range_to_trust", true, true),
     ("sim_clone_to_trust", true, true),
@@ -278,6 +305,7 @@ fn data(len: usize) -> Vec<f64> {
 struct StepOut {
     hint: (usize, Option<usize>),
     tl_len: Option<usize>,
+    tl_empty: Option<bool>,
     rest: Vec<u64>,
     capped: bool,
 }
@@ -440,6 +468,7 @@ macro_rules! run_root {
             apply_ops!(it, &t.script[..cut], $de, $cl);
             let hint = it.size_hint();
             let tl_len = if hint.1.is_some() { Some(TrustedLen::len(&it)) } else { None };
+            let tl_empty = if hint.1.is_some() { Some(TrustedLen::is_empty(&it)) } else { None };
             let cap = hint.1.unwrap_or(4096).min(4096) + 16;
             let mut rest = Vec::new();
             let mut capped = false;
@@ -453,10 +482,13 @@ macro_rules! run_root {
                     None => break,
                 }
             }
-            steps.push(StepOut { hint, tl_len, rest, capped });
+            steps.push(StepOut { hint, tl_len, tl_empty, rest, capped });
         }
         let clean = Iterator::all(&mut steps.iter(), |s: &StepOut| {
-            !s.capped && s.hint.1 == Some(s.rest.len()) && s.tl_len == Some(s.rest.len())
+            !s.capped
+                && s.hint.1 == Some(s.rest.len())
+                && s.tl_len == Some(s.rest.len())
+                && s.tl_empty == Some(s.rest.is_empty())
         });
         // terminal through the iterator's own consuming method, only on a clean history
         let term = if clean && t.terminal != TTerm::Drain {
@@ -476,6 +508,18 @@ macro_rules! run_root {
                 },
                 TTerm::CollectTrusted => {
                     TermOut::Seq(it.collect_trusted_to_vec().iter().map(|v| f64::to_bits(v_bits(v))).collect())
+                },
+                TTerm::FrontEndTrustedVec => {
+                    let c: Vec<_> = it.collect_trusted_vec1();
+                    TermOut::Seq(c.iter().map(|v| f64::to_bits(v_bits(v))).collect())
+                },
+                TTerm::FrontEndTrustedDeque => {
+                    let c: VecDeque<_> = it.collect_trusted_vec1();
+                    TermOut::Seq(c.iter().map(|v| f64::to_bits(v_bits(v))).collect())
+                },
+                TTerm::FrontEndPlainVec => {
+                    let c: Vec<_> = it.collect_vec1();
+                    TermOut::Seq(c.iter().map(|v| f64::to_bits(v_bits(v))).collect())
                 },
                 TTerm::Drain => unreachable!(),
             })
@@ -500,6 +544,11 @@ impl AsF64 for Option<f64> {
         self.unwrap_or(f64::NAN)
     }
 }
+impl AsF64 for () {
+    fn as_f64(&self) -> f64 {
+        0.0
+    }
+}
 impl AsF64 for i32 {
     fn as_f64(&self) -> f64 {
         *self as f64
@@ -515,6 +564,12 @@ fn run(t: &Typed) -> Result<(Vec<StepOut>, Option<TermOut>), String> {
     let w = t.param.max(1);
     guarded(|| -> Result<(Vec<StepOut>, Option<TermOut>), String> {
         Ok(match t.root.as_str() {
+            "std_range" => run_root!((0..n as i32), t, de, cl),
+            "std_range_inclusive" => run_root!((1..=n as i32), t, de, cl),
+            "vec_into_iter" => run_root!(d.clone().into_iter(), t, de, cl),
+            "deque_into_iter" => run_root!(d.iter().copied().collect::<VecDeque<f64>>().into_iter(), t, de, cl),
+            "unit_items_repeat_n" => run_root!(std::iter::repeat_n((), n), t, de, cl),
+            "once_chain_vec" => run_root!(std::iter::once(-1.0f64).chain(d.clone().into_iter()), t, de),
             "cloned_iter_to_trust" => run_root!(d.iter().cloned().to_trust(n), t, de, cl),
             "range_to_trust" => run_root!((0..n as i32).to_trust(n), t, de, cl),
             "sim_clone_to_trust" => run_root!(SimSource::new(d.clone()).to_trust(n), t, de, cl),
@@ -612,7 +667,7 @@ pub fn check_typed(t: &Typed) -> (Vec<Violation>, RunStats) {
                 st.harness_error = Some(msg);
             } else {
                 viol.push(Violation {
-                    props: vec!["C09"],
+                    props: vec!["C09", "C19"],
                     oracle: "H4",
                     stage: stage.clone(),
                     detail: format!("library panicked: {msg}"),
@@ -639,6 +694,15 @@ pub fn check_typed(t: &Typed) -> (Vec<Violation>, RunStats) {
                     });
                     break;
                 }
+                if !s.capped && s.tl_empty != Some(got == 0) {
+                    viol.push(Violation {
+                        props: vec!["C09"],
+                        oracle: "H1",
+                        stage: stage.clone(),
+                        detail: format!("{after} (step {cut}) TrustedLen::is_empty() = {:?} but next()-iteration yields {got} items", s.tl_empty),
+                    });
+                    break;
+                }
                 if !s.capped && s.tl_len != Some(got) {
                     viol.push(Violation {
                         props: vec!["C09"],
@@ -662,8 +726,15 @@ pub fn check_typed(t: &Typed) -> (Vec<Violation>, RunStats) {
                         TermOut::Seq(s) => format!("{} items", s.len()),
                     };
                     viol.push(Violation {
-                        props: vec!["C09"],
-                        oracle: if t.terminal == TTerm::CollectTrusted { "H2" } else { "H1c" },
+                        props: vec!["C09", "C19"],
+                        oracle: if matches!(
+                            t.terminal,
+                            TTerm::CollectTrusted | TTerm::FrontEndTrustedVec | TTerm::FrontEndTrustedDeque | TTerm::FrontEndPlainVec
+                        ) {
+                            "H2"
+                        } else {
+                            "H1c"
+                        },
                         stage: stage.clone(),
                         detail: format!(
                             "{} gives {shown}; next()-iteration of the same stream yields {} items",
@@ -676,7 +747,7 @@ pub fn check_typed(t: &Typed) -> (Vec<Violation>, RunStats) {
         },
     }
     let pulled = !t.script.is_empty();
-    if pulled && t.terminal == TTerm::CollectTrusted {
+    if pulled && matches!(t.terminal, TTerm::CollectTrusted | TTerm::FrontEndTrustedVec | TTerm::FrontEndTrustedDeque) {
         st.fault("partial_then_handoff");
     }
     if t.len == 0 {
@@ -802,7 +873,12 @@ pub fn directed(max_len: usize) -> Vec<Typed> {
                             len,
                             param: len + 1,
                             script: vec![a.clone(), b.clone()],
-                            terminal: if (a.k() + b.k()) % 2 == 0 { TTerm::Drain } else { TTerm::CollectTrusted },
+                            terminal: match (a.k() + 2 * b.k()) % 4 {
+                                0 => TTerm::Drain,
+                                1 => TTerm::CollectTrusted,
+                                2 => TTerm::FrontEndTrustedVec,
+                                _ => TTerm::FrontEndTrustedDeque,
+                            },
                         });
                     }
                 }
